@@ -847,6 +847,13 @@ def enumerate_cases(tier):
                 yield {'ops': [J, J, J, ['add_pipe', 0, 0, 0], ['add_pipe', 1, 0, 0], ctl, ['remove_link', 0, mode],
                                ['remove_node', 0, mode], ['remove_link', 0, mode], ['remove_node', 0, mode],
                                ['remove_control', 0], ['remove_link', 0, mode], ['remove_node', 0, mode]]}
+    # a node that is in use by a source only (no link) and required by a control: removal with_control / force must be
+    # refused without touching the controls; after the source is gone it succeeds
+    for rule in (0, 1):
+        for mode in (0, 1, 2):
+            yield {'ops': [J, J, J, ['add_pipe', 0, 0, 0], ['add_source', 2, 0], ['add_control', rule, 1, 2, 0, 0, 0],
+                           ['remove_node', 2, mode], ['remove_source', 0], ['remove_node', 2, mode], ['remove_control', 0],
+                           ['remove_node', 2, mode]]}
     # every valve type and both pump types added and removed again
     ops = [C(0), C(2), J, J, J]
     for v in range(6):
